@@ -486,7 +486,10 @@ def runCase (c : Case) (secs : List (String × List String)) : Acc :=
     let so := if so.out == "json" then { so with canon := canonOf ob.json (sectAt secs "RAW" i) } else so
     { fs := fs', outs := acc.outs ++ [so], prevFailed := failedTasks ctxJ log,
       v09 := acc.v09.both (c09 ctxJ acc.prevFailed ob),
-      v19 := acc.v19.both (c19 ctxJ ob),
+      -- (the look-around probe of a task saw something next to the cache directory that spok had put there: a write
+      -- no action allows, even if it is gone again when the invocation ends)
+      v19 := (acc.v19.both (c19 ctxJ ob)).both
+        (let p := sectAt secs "PROBE" i; if p == "clean" || p == "-" then .na else .fail),
       v20 := acc.v20.both (c20 ctxJ ob),
       v14 := acc.v14.both (c14 ctxJ ob),
       v03 := acc.v03.both (c03 ctxJ ob),
@@ -502,7 +505,7 @@ def handle (line : String) : String :=
       let secs := sectionsOf impl
       let acc := runCase c secs
       let j (f : StepOut → String) := " / ".intercalate (acc.outs.map f)
-      s!"EXIT {j (·.exit)} ; NAMED {j (·.named)} ; WR {j (·.wr)} ; OUT {j (·.out)} ; JS {j (·.js)} ; OM {j (·.om)} ; TR {j (·.tr)} ; VR {j (·.vr)} ; EM {j (·.em)} ; CANON {j (·.canon)}" ++
+      s!"EXIT {j (·.exit)} ; NAMED {j (·.named)} ; WR {j (·.wr)} ; OUT {j (·.out)} ; JS {j (·.js)} ; OM {j (·.om)} ; TR {j (·.tr)} ; VR {j (·.vr)} ; EM {j (·.em)} ; CANON {j (·.canon)} ; PROBE {j (fun _ => "clean")}" ++
       s!" || C09={acc.v09.str} C19={acc.v19.str} C20={acc.v20.str} C14={acc.v14.str} C03={acc.v03.str} C17={acc.v17.str}"
   | _ => "BAD-LINE || C09=FAIL C19=FAIL C20=FAIL C14=FAIL C03=FAIL C17=FAIL"
 
